@@ -2,7 +2,258 @@
 Helper lemmas for the contract bus and start-up.
 -/
 import TickitModel.Core.Contract
+import TickitModel.Lemmas.DictLemmas
 
 namespace Tickit
+
+/-! ### generic -/
+
+/-- two upserts on different keys commute when the first key is already present
+(it is replaced in place; only an absent key is appended). -/
+theorem upsert_comm_of_mem {κ β : Type} [DecidableEq κ] (m : List (κ × β)) {k₁ k₂ : κ} (v₁ v₂ : β)
+    (hmem : k₁ ∈ akeys m) (hne : k₁ ≠ k₂) :
+    upsert (upsert m k₁ v₁) k₂ v₂ = upsert (upsert m k₂ v₂) k₁ v₁ := by
+  induction m with
+  | nil => simp at hmem
+  | cons e m ih =>
+    obtain ⟨k, w⟩ := e
+    by_cases h1 : k = k₁
+    · subst h1
+      simp [upsert, hne]
+    · have hm : k₁ ∈ akeys m := by
+        simp only [akeys_cons, List.mem_cons] at hmem
+        rcases hmem with h | h
+        · exact absurd h.symm h1
+        · exact h
+      by_cases h2 : k = k₂
+      · subst h2
+        simp [upsert, h1]
+      · simp [upsert, h1, h2, ih hm]
+
+/-! ### the bus: one step -/
+
+theorem CBus.log_produce (b : CBus) (T' : CTopic) (v : Int) (T : CTopic) :
+    ({ b with logs := upsert b.logs T' (b.log T' ++ [v]) } : CBus).log T =
+      if T' = T then b.log T ++ [v] else b.log T := by
+  simp only [CBus.log, agetD_eq, alookup_upsert]
+  split
+  · next h => subst h; rfl
+  · rfl
+
+theorem CBus.deliveredTo_append (b : CBus) (k' : Nat) (T' : CTopic) (v : Int) (cs : List ((Nat × CTopic) × Nat))
+    (k : Nat) (T : CTopic) :
+    ({ b with cursors := cs, delivered := b.delivered ++ [(k', T', v)] } : CBus).deliveredTo k T =
+      b.deliveredTo k T ++ (if (k', T') = (k, T) then [v] else []) := by
+  simp only [CBus.deliveredTo, List.filter_append, List.map_append]
+  congr 1
+  by_cases h : (k', T') = (k, T)
+  · simp only [Prod.mk.injEq] at h
+    simp [h.1, h.2]
+  · rw [if_neg h]
+    simp only [Prod.mk.injEq, not_and] at h
+    by_cases hk : k' = k
+    · simp [hk, h hk]
+    · simp [hk]
+
+/-- the replay invariant: a subscribed consumer has received exactly the first `cursor`
+messages; an unsubscribed one nothing. -/
+def CBus.Inv (b : CBus) : Prop :=
+  ∀ k T,
+    (∀ i, alookup b.cursors (k, T) = some i → i ≤ (b.log T).length ∧ b.deliveredTo k T = (b.log T).take i) ∧
+    (alookup b.cursors (k, T) = none → b.deliveredTo k T = [])
+
+theorem CBus.Inv_empty : CBus.Inv {} := by
+  intro k T
+  simp [CBus.deliveredTo]
+
+theorem CBus.Inv_step {b b' : CBus} {a : CAct} (hI : b.Inv) (hs : b.step a = some b') : b'.Inv := by
+  intro k T
+  obtain ⟨h1, h2⟩ := hI k T
+  cases a with
+  | produce T' v =>
+    simp only [CBus.step, Option.some.injEq] at hs
+    subst hs
+    rw [CBus.log_produce]
+    refine ⟨fun i hi => ?_, fun hn => h2 hn⟩
+    obtain ⟨hle, hd⟩ := h1 i hi
+    change _ ∧ b.deliveredTo k T = _
+    split
+    · refine ⟨by simp; omega, ?_⟩
+      rw [List.take_append_of_le_length hle]; exact hd
+    · exact ⟨hle, hd⟩
+  | subscribe k' T' =>
+    simp only [CBus.step] at hs
+    split at hs
+    · cases hs
+    · next hnone =>
+      simp only [Option.some.injEq] at hs
+      subst hs
+      simp only [alookup_upsert]
+      change (∀ i, _ → _ ∧ b.deliveredTo k T = _) ∧ (_ → b.deliveredTo k T = _)
+      by_cases hkt : (k', T') = (k, T)
+      · simp only [hkt, if_true, Option.some.injEq, reduceCtorEq, false_imp_iff, and_true]
+        rw [hkt] at hnone
+        intro i hi
+        subst hi
+        simp [h2 hnone]
+      · simp only [hkt, if_false]
+        exact ⟨h1, h2⟩
+  | deliver k' T' =>
+    simp only [CBus.step] at hs
+    split at hs
+    · cases hs
+    · next i hi =>
+      split at hs
+      · cases hs
+      · next v hv =>
+        simp only [Option.some.injEq] at hs
+        subst hs
+        rw [CBus.deliveredTo_append]
+        simp only [alookup_upsert]
+        change (∀ j, _ → j ≤ (b.log T).length ∧ _ = (b.log T).take j) ∧ _
+        by_cases hkt : (k', T') = (k, T)
+        · simp only [hkt, if_true, Option.some.injEq, reduceCtorEq, false_imp_iff, and_true]
+          obtain ⟨rfl, rfl⟩ := Prod.mk.inj hkt
+          obtain ⟨hle, hd⟩ := h1 i hi
+          intro j hj
+          subst hj
+          obtain ⟨hlt, hget⟩ := List.getElem?_eq_some_iff.1 hv
+          refine ⟨hlt, ?_⟩
+          rw [hd, List.take_add_one, hv]
+          rfl
+        · simp only [hkt, if_false, List.append_nil]
+          exact ⟨h1, h2⟩
+
+theorem CExec.Inv {b b' : CBus} {acts : List CAct} (h : CExec b acts b') (hI : b.Inv) : b'.Inv := by
+  induction h with
+  | nil => exact hI
+  | cons hs _ ih => exact ih (CBus.Inv_step hI hs)
+
+/-! ### executions -/
+
+theorem CExec.append {b b' b'' : CBus} {as bs : List CAct} (h1 : CExec b as b') (h2 : CExec b' bs b'') :
+    CExec b (as ++ bs) b'' := by
+  induction h1 with
+  | nil => exact h2
+  | cons hs _ ih => exact .cons hs (ih h2)
+
+/-- a subscription commutes to the left past any action that is not a subscription. -/
+theorem CBus.step_swap_subscribe {b b₁ b₂ : CBus} {a : CAct} {k : Nat} {T : CTopic}
+    (ha : a.isSubscribe = false) (h1 : b.step a = some b₁) (h2 : b₁.step (.subscribe k T) = some b₂) :
+    ∃ c₁, b.step (.subscribe k T) = some c₁ ∧ c₁.step a = some b₂ := by
+  cases a with
+  | subscribe _ _ => simp [CAct.isSubscribe] at ha
+  | produce T' v =>
+    simp only [CBus.step, Option.some.injEq] at h1
+    subst h1
+    simp only [CBus.step] at h2 ⊢
+    split at h2
+    · cases h2
+    · next hnone =>
+      simp only [Option.some.injEq] at h2
+      subst h2
+      exact ⟨_, rfl, rfl⟩
+  | deliver k' T' =>
+    simp only [CBus.step] at h1
+    split at h1
+    · cases h1
+    · next i hi =>
+      split at h1
+      · cases h1
+      · next v hv =>
+        simp only [Option.some.injEq] at h1
+        subst h1
+        simp only [CBus.step] at h2 ⊢
+        split at h2
+        · cases h2
+        · next hnone =>
+          simp only [Option.some.injEq] at h2
+          subst h2
+          simp only [alookup_upsert] at hnone
+          have hne : (k', T') ≠ (k, T) := by
+            intro h; simp [h] at hnone
+          simp only [hne, if_false] at hnone
+          simp only [hnone]
+          refine ⟨_, rfl, ?_⟩
+          have hi' : alookup (upsert b.cursors (k, T) 0) (k', T') = some i := by
+            rw [alookup_upsert, if_neg (Ne.symm hne)]; exact hi
+          simp only [hi']
+          change (match (b.log T')[i]? with | none => none | some v => _) = _
+          simp only [hv]
+          rw [upsert_comm_of_mem _ _ _ (mem_akeys_of_alookup_eq_some hi) hne]
+
+/-- moving one non-subscription past a block of subscriptions. -/
+theorem CExec.move_past_subscribes {a : CAct} (ha : a.isSubscribe = false) (N : List CAct) :
+    ∀ (S : List CAct), (∀ s ∈ S, s.isSubscribe = true) → ∀ {b b₁ b' : CBus},
+      b.step a = some b₁ → CExec b₁ (S ++ N) b' → CExec b (S ++ a :: N) b' := by
+  intro S
+  induction S with
+  | nil => intro _ b b₁ b' h1 h2; exact .cons h1 h2
+  | cons s S ih =>
+    intro hS b b₁ b' h1 h2
+    cases h2 with
+    | cons hs hrest =>
+      have hsub : s.isSubscribe = true := hS s (List.mem_cons_self ..)
+      cases s with
+      | subscribe k T =>
+        obtain ⟨c₁, hc1, hc2⟩ := CBus.step_swap_subscribe ha h1 hs
+        exact .cons hc1 (ih (fun s hs => hS s (List.mem_cons_of_mem _ hs)) hc2 hrest)
+      | produce _ _ => simp [CAct.isSubscribe] at hsub
+      | deliver _ _ => simp [CAct.isSubscribe] at hsub
+
+/-- all subscriptions first, everything else in the same order: same final state. -/
+theorem CExec.subscribes_first {b b' : CBus} {acts : List CAct} (h : CExec b acts b') :
+    CExec b (acts.filter CAct.isSubscribe ++ acts.filter (fun a => !a.isSubscribe)) b' := by
+  induction h with
+  | nil b => exact .nil b
+  | @cons b b₁ b'' a as hs _ ih =>
+    cases ha : a.isSubscribe with
+    | true =>
+      simp only [List.filter_cons, ha, if_true, Bool.not_true, Bool.false_eq_true, if_false, List.cons_append]
+      exact .cons hs ih
+    | false =>
+      simp only [List.filter_cons, ha, Bool.false_eq_true, if_false, Bool.not_false, if_true]
+      exact CExec.move_past_subscribes ha _ _ (fun s hs => (List.mem_filter.1 hs).2) hs ih
+
+/-! ### component start-up -/
+
+theorem CompSt.not_crashed_of_hasProducer (evs : List CompEv) :
+    ∀ c : CompSt, c.crashed = false → c.hasProducer = true → (evs.foldl CompSt.step c).crashed = false := by
+  induction evs with
+  | nil => intro c h _; exact h
+  | cons e evs ih =>
+    intro c hc hp
+    rw [List.foldl_cons]
+    apply ih
+    · cases e with
+      | start s => cases s <;> simpa [CompSt.step] using hc
+      | input =>
+        simp only [CompSt.step, hp, if_true]
+        split <;> simpa using hc
+    · cases e with
+      | start s => cases s <;> simp [CompSt.step, hp]
+      | input =>
+        simp only [CompSt.step, hp, if_true]
+        split <;> simp [hp]
+
+theorem CompSt.not_crashed_of_startOrder (evs : List CompEv) :
+    ∀ c : CompSt, c.crashed = false → c.subscribed = false → RespectsStartOrder evs →
+      (evs.foldl CompSt.step c).crashed = false := by
+  induction evs with
+  | nil => intro c h _ _; exact h
+  | cons e evs ih =>
+    intro c hc hs hr
+    rw [List.foldl_cons]
+    cases e with
+    | input =>
+      have : c.step .input = c := by simp [CompSt.step, hs]
+      rw [this]
+      exact ih c hc hs (by simpa [RespectsStartOrder] using hr)
+    | start s =>
+      cases s with
+      | createProducer =>
+        exact CompSt.not_crashed_of_hasProducer evs _ (by simpa [CompSt.step] using hc) (by simp [CompSt.step])
+      | subscribe =>
+        simp [RespectsStartOrder, startOrder, List.cons_prefix_cons] at hr
 
 end Tickit
